@@ -126,7 +126,8 @@ def _(c):
         cols = lay[k][0][f]
         reads = [(a, b) for (v, a, b) in slices.get(attr, []) if v == var[k]]
         c.run.oblige(f"attribute_from_its_field.{attr}", "post", z3.BoolVal(reads == [(cols[0], cols[1])]), using=[], meta=dict(meta, parser=str(reads), writer=str(cols)))
-    c.run.oblige("classification_column", "post", z3.BoolVal(lay[1][1].get(7) == "U"), using=[], meta=dict(meta))
+    # (column 8 of line 1 holds the one-character classification: the orbit's own, as read from first[7] -- it used to be the literal U, which lost C / S)
+    c.run.oblige("classification_column", "post", z3.BoolVal(lay[1][0].get("classification") == (7, 8)), using=[], meta=dict(meta))
     c.run.oblige("ephemeris_type_column", "post", z3.BoolVal(lay[1][1].get(62) == "0" and ("first", 62, 63) in slices.get("type", [])), using=[], meta=dict(meta))
 
 
@@ -185,7 +186,7 @@ def _fields_grid(tier, rng):
     for k in range(n):
         yield {"cat": rng.choice(cats), "desig": rng.randrange(len(desig)), "ndot": rng.choice(ndots), "ndotdot": rng.choice(drag), "bstar": rng.choice(drag),
                "e": rng.choice(es), "i": rng.choice(angs[:4]), "raan": rng.choice(angs), "argp": rng.choice(angs), "M": rng.choice(angs), "n": rng.choice(ns),
-               "elnb": rng.choice(elnbs), "rev": rng.choice(revs), "epoch": rng.randrange(len(epochs)), "name": k % 8}
+               "elnb": rng.choice(elnbs), "rev": rng.choice(revs), "epoch": rng.randrange(len(epochs)), "name": k % 8, "cls": (0, 0, 0, 0, 1, 0, 0, 2, 0, 0)[k % 10]}
 
 
 def _compose(a):
@@ -200,7 +201,8 @@ def _compose(a):
         mant, exp = s.split("e")
         return ("-" if x < 0 else " ") + mant.replace(".", "") + f"{int(exp) + 1:+d}"
     ndot = f"{a['ndot']: .8f}".replace("0.", ".", 1)
-    l1 = f"1 {a['cat']:05d}U {desig:<8} {year % 100:02d}{day:012.8f} {ndot:>10} {assumed(a['ndotdot']):>8} {assumed(a['bstar']):>8} 0 {a['elnb']:>4}"
+    cls = "UCS"[int(a.get("cls", 0))]     # classification: unclassified, classified, secret
+    l1 = f"1 {a['cat']:05d}{cls} {desig:<8} {year % 100:02d}{day:012.8f} {ndot:>10} {assumed(a['ndotdot']):>8} {assumed(a['bstar']):>8} 0 {a['elnb']:>4}"
     l2 = f"2 {a['cat']:05d} {a['i']:8.4f} {a['raan']:8.4f} {a['e']:.7f}"[:26] + f"{a['e']:.7f}"[2:] + f" {a['argp']:8.4f} {a['M']:8.4f} {a['n']:11.8f}{a['rev']:>5}"
     w = lambda ch: int(ch) if ch.isdigit() else (1 if ch == "-" else 0)
     l1 += str(sum(w(ch) for ch in l1) % 10)
@@ -217,7 +219,7 @@ def _(c):
     writing the parsed orbit back gives the identical two lines (and name line), each 69 characters with a correct check digit"""
     from beyond.io.tle import Tle
     a = {k: c.real(k) if k in ("ndot", "ndotdot", "bstar", "e", "i", "raan", "argp", "M", "n") else c.integer(k) for k in
-         ("cat", "desig", "ndot", "ndotdot", "bstar", "e", "i", "raan", "argp", "M", "n", "elnb", "rev", "epoch", "name")}
+         ("cat", "desig", "ndot", "ndotdot", "bstar", "e", "i", "raan", "argp", "M", "n", "elnb", "rev", "epoch", "name", "cls")}
     name, l1, l2 = _compose(a)
     c.require(len(l1) == 69 and len(l2) == 69)
     text = (name + "\n" if name else "") + l1 + "\n" + l2
